@@ -123,9 +123,8 @@ spec_fn(
     lemmas=[dict(name="mono", induct="n", lo=0, hi="N",
                  stmt="forall(0, n + 1, lambda x1: 0 <= cnt1(M, x1) and cnt1(M, x1) <= cnt1(M, n),"
                       " pat=((cnt1(M, x1), cnt1(M, n)),))"),
-            dict(name="strict", noinduct=True,
-                 stmt="forall(0, N, lambda x1: forall(0, N + 1, lambda x2: implies(not M[x1] and x1 < x2, cnt1(M, x1) < cnt1(M, x2)),"
-                      " pat=((cnt1(M, x1), cnt1(M, x2)),)))")],
+            dict(name="strict", induct="n", lo=0, hi="N",
+                 stmt="forall(0, n, lambda x1: implies(not M[x1], cnt1(M, x1) < cnt1(M, n)), pat=((cnt1(M, x1), cnt1(M, n)),))")],
     py=lambda M, x: int(np.count_nonzero(~np.asarray(M, dtype=bool)[:x])),
 )
 macro("total1", ["M"], "cnt1(M, M.shape[0])", py=lambda M: int(np.count_nonzero(~np.asarray(M, dtype=bool))))
